@@ -21,6 +21,13 @@
 //   updline <flgH>                         `upd` op line built from the engine's own efc arrays, jar = J*qacc - aref
 //   impline                                `imp` op line built from the engine's own efc arrays, followed by ` => ` and the
 //                                          efc_R / efc_D / contact.mu that the real mj_makeImpedance(m, d) computes from them
+// Call histories on one mjData (C11: the admissibility / J'f clauses hold after EVERY forward call, whatever the calls before):
+//   flags <disableflags> <enableflags>     m->opt.disableflags / enableflags (user-settable between calls)       -> ok
+//   eqactive b*neq                         d->eq_active                                                          -> ok
+//   refwd <hex>                            requires a preceding fwd on the same state: overwrites the outputs of
+//                                          mj_fwdConstraint that C11 observes (qfrc_constraint, efc_force and their island
+//                                          copies ifrc_constraint / iefc_force) with the given value, re-runs the real
+//                                          mj_fwdConstraint(m, d) and dumps like fwd (mj_forward is NOT re-run)  -> {json}
 #include <math.h>
 #include <setjmp.h>
 #include <stdint.h>
@@ -312,10 +319,10 @@ static void dense_J(double* J) {
   }
 }
 
-static void op_fwd(void) {
-  mj_forward(m, d);
+static void dump_constraint(void) {
   int nefc = d->nefc, nv = m->nv;
-  printf("{\"nv\":%d,\"ne\":%d,\"nf\":%d,\"nefc\":%d,\"ncon\":%d,\"sparse\":%d,\"pyramidal\":%d,\"solver\":%d,\"niter\":%d,\"impratio\":",
+  printf("{\"nisland\":%d,\"nidof\":%d,\"disableflags\":%d,", d->nisland, d->nisland > 0 ? d->nidof : 0, m->opt.disableflags);
+  printf("\"nv\":%d,\"ne\":%d,\"nf\":%d,\"nefc\":%d,\"ncon\":%d,\"sparse\":%d,\"pyramidal\":%d,\"solver\":%d,\"niter\":%d,\"impratio\":",
          nv, d->ne, d->nf, nefc, d->ncon, mj_isSparse(m), mj_isPyramidal(m), m->opt.solver, d->solver_niter[0]);
   put_num(m->opt.impratio); printf(",");
   put_ints("type", d->efc_type, nefc, 0); put_ints("id", d->efc_id, nefc, 0); put_ints("state", d->efc_state, nefc, 0);
@@ -326,6 +333,7 @@ static void op_fwd(void) {
   if (nefc) { dense_J(J); mj_mulJacVec(m, d, jar, d->qacc); for (int i = 0; i < nefc; i++) jar[i] -= d->efc_aref[i]; }
   put_nums("J", J, (long)nefc * nv, 0); put_nums("jar", jar, nefc, 0);
   put_nums("qfrc_constraint", d->qfrc_constraint, nv, 0);
+  put_ints("idof2dof", d->map_idof2dof, (nefc && d->nisland > 0 && d->map_idof2dof) ? d->nidof : 0, 0);
   printf("\"contacts\":[");
   for (int i = 0; i < d->ncon; i++) {
     mjContact* c = d->contact + i;
@@ -339,6 +347,24 @@ static void op_fwd(void) {
   }
   printf("]}\n");
   free(J); free(jar);
+}
+
+static void op_fwd(void) {
+  mj_forward(m, d);
+  dump_constraint();
+}
+
+// re-run of mj_fwdConstraint on the post-forward mjData with its C11-observable outputs overwritten by `poison`
+static void op_refwd(double poison) {
+  int nv = m->nv, nefc = d->nefc;
+  for (int i = 0; i < nv; i++) d->qfrc_constraint[i] = poison;
+  if (nefc && d->efc_force) for (int i = 0; i < nefc; i++) d->efc_force[i] = poison;
+  if (nefc && d->nisland > 0) {
+    if (d->ifrc_constraint) for (int i = 0; i < d->nidof; i++) d->ifrc_constraint[i] = poison;
+    if (d->iefc_force) for (int i = 0; i < nefc; i++) d->iefc_force[i] = poison;
+  }
+  mj_fwdConstraint(m, d);
+  dump_constraint();
 }
 
 static void op_updline(int flg) {
@@ -442,7 +468,8 @@ int main(void) {
       if (!m || !d) printf("error %s\n", m ? "makeData" : err);
       else printf("ok %d %d %d\n", (int)m->nq, (int)m->nv, (int)m->ngeom);
     } else if (strcmp(op, "opt") && strcmp(op, "adhesion") && strcmp(op, "set") && strcmp(op, "reset") &&
-               strcmp(op, "step") && strcmp(op, "fwd") && strcmp(op, "fwdq") && strcmp(op, "updline") && strcmp(op, "impline")) {
+               strcmp(op, "step") && strcmp(op, "fwd") && strcmp(op, "fwdq") && strcmp(op, "updline") && strcmp(op, "impline") &&
+               strcmp(op, "flags") && strcmp(op, "eqactive") && strcmp(op, "refwd")) {
       printf("bad-op\n");
     } else if (!m || !d) {
       printf("error no model\n");
@@ -463,6 +490,16 @@ int main(void) {
     else if (!strcmp(op, "fwdq")) { mj_forward(m, d); printf("ok %d %d\n", d->nefc, d->ncon); }
     else if (!strcmp(op, "updline") && n == 2) op_updline(atoi(tok[1]) ? 1 : 0);
     else if (!strcmp(op, "impline") && n == 1) op_impline();
+    else if (!strcmp(op, "flags") && n == 3) {
+      m->opt.disableflags = atoi(tok[1]); m->opt.enableflags = atoi(tok[2]);
+      printf("ok\n");
+    } else if (!strcmp(op, "eqactive") && n - 1 <= m->neq) {
+      for (int i = 0; i < n - 1; i++) d->eq_active[i] = atoi(tok[1 + i]) ? 1 : 0;
+      printf("ok\n");
+    } else if (!strcmp(op, "refwd") && n == 2) {
+      double poison;
+      if (!parse_hex(tok[1], &poison)) printf("bad-op\n"); else op_refwd(poison);
+    }
     else printf("bad-op\n");
     jb_armed = 0;
     fflush(stdout);
